@@ -11,12 +11,14 @@ FUNCTIONS = ['frappy.datatypes.{FloatRange,IntRange,ScaledInteger,BoolType,EnumT
              'TupleOf,StructOf}.{__call__,validate,import_value,check_type}', 'frappy.lib.clamp',
              'frappy.properties.HasProperties.{setProperty,checkProperties}', 'frappy.lib.enum.Enum.__getitem__']
 ASSUMPTIONS = ['numeric limits are arbitrary (symbolic) with min <= max inside +-1e300 (ints inside +-2**64)',
-               'float candidates offered to int/bool leaves lie in +-4096 (symbolic), to enum leaves in +-8; int candidates +-2**70; around scaled integers: grid indices +-8, candidates +-32',
+               'float candidates offered to int/bool leaves lie in +-4096 (symbolic), to enum leaves in +-8 (ints too); other int candidates +-2**70; around scaled integers: grid indices +-8, candidates +-32',
                'scaled integers: scale from the catalogue {0.001, 0.1, 0.5, 1, 3, 1e6}, limits grid aligned',
                'container lengths 0..3 compared against symbolic minlen/maxlen in 0..5; nesting depth <= 3',
                'strings, blobs and enum names are concrete catalogue literals in this harness (symbolic strings: CrossHair part)',
                'lazy_number_validation at its default (False)']
 REQUIRED_TAGS = ['accepted', 'rejected']
+ACCEPTED_FLAGS = {'hash-of-nonintegral-real': 'only Enum tables are hashed into here; their keys are ints and strs, so a '
+                                              'non-integral float equals none of them whatever hash is used'}
 LIMITS = {'quick': {'max_paths': 4000, 'max_s': 120}, 'thorough': {'max_paths': 60000, 'max_s': 900}}
 
 ENUM = {'k': 'enum', 'members': {'a': 1, 'b': 2, 'c': 5}}
@@ -66,7 +68,7 @@ def case(fn, cid, **params):
     if has_kind(params['shape'], ('scaled',)):
         params['box'] = {'i': 4 * M.KBOX, 'f': 4 * M.KBOX}
     elif has_kind(params['shape'], ('enum',)):
-        params['box'] = {'f': 8}
+        params['box'] = {'f': 8, 'i': 8}
     elif has_kind(params['shape'], ('int', 'bool')):
         params['box'] = {'f': 4096}
     return {'fn': fn, 'id': cid, 'params': params}
@@ -198,7 +200,7 @@ def run_validate(env, p):
     M.judge_accept(env, spec, cand, r, key, wire=wire, limits=wire, prev=prev)
     # validating a validated value returns it unchanged
     try:
-        r2 = spec.dt.validate(r)
+        r2 = spec.dt.validate(r) if wire else spec.dt(r)
     except Exception as e:
         env.fail(f'{key}/{spec.kind}/revalidation-raises/{type(e).__name__}', repr(e))
         return
